@@ -95,8 +95,18 @@ class Hist:
 
 def mutate(rng, pkt):
     b = bytearray(pkt)
-    style = rng.randrange(6)
-    if style == 0:
+    style = rng.randrange(8)
+    if style == 6 and len(b) >= 20:
+        # the same bit flipped in two octets of the authenticator (their differences cancel under XOR, they do not under OR)
+        i, j = rng.sample(range(4, 20), 2)
+        bit = 1 << rng.randrange(8)
+        b[i] ^= bit
+        b[j] ^= bit
+    elif style == 7 and len(b) >= 20:
+        # the authenticator's own octets in another order (halves swapped / rotated by one)
+        a = bytes(b[4:20])
+        b[4:20] = a[8:] + a[:8] if rng.random() < 0.5 else a[1:] + a[:1]
+    elif style == 0:
         k = rng.randrange(len(b))
         b[k] ^= 1 << rng.randrange(8)
     elif style == 1 and len(b) > 21:
@@ -627,3 +637,49 @@ def cfg_only_history(exe, rng, idx):
     cfg = W.rand_cfg(rng, rewrites=rng.random() < 0.3, ttl=rng.random() < 0.5)
     h = Hist(exe, rng, cfg)
     return h.finish(kind="cfg-only", valid=1)
+
+
+def exact_request(h, k, code, total, ident):
+    """a well-formed, authentic request of exactly `total` octets (20 + attributes)"""
+    attrs = [(1, b"u@x")]
+    left = total - 20 - 5 - (18 if code == 1 else 0)       # an Access-Request carries its Message-Authenticator already
+    while left > 0:
+        if left == 1:                                         # cannot be filled with whole attributes: grow the previous one
+            t, v = attrs.pop()
+            attrs.append((t, v + b"z"))
+            left = 0
+            break
+        n = min(255, left)
+        if left - n == 1:
+            n -= 1
+        attrs.append((25, bytes((7 * i + left) % 256 for i in range(n - 2))))
+        left -= n
+    if code == 1:
+        attrs.insert(0, (80, None))
+    pkt = R.build(code, ident, R.rand_bytes(h.rng, 16), attrs, h.cl[k]["secret"])
+    assert len(pkt) == total, (len(pkt), total)
+    return pkt
+
+
+def udp_size_history(exe, rng, idx):
+    """requests at the ends of the legal size range (20..4096 octets in all) through the real UDP listener thread"""
+    cfg = W.rand_cfg(rng, rewrites=False, ttl=False, nclients=1, nservers=1, types=[0])
+    cfg.clients[0].update(rwin=None, rwout=None, rwuser=None, reqma=False, reqmap=False, host="127.0.1.0/28")
+    cfg.servers[0].update(rwin=None, rwout=None)
+    cfg.realms = [dict(name=b"*", srv=[cfg.servers[0]["name"]], acc=[cfg.servers[0]["name"]], msg=None, accresp=False)]
+    cfg.opts["verifyeap"] = 0
+    h = Hist(exe, rng, cfg)
+    h.send("udplisten")
+    h.send("udpnas 127.0.1.5")
+    h.cl = [cfg.clients[0]]
+    ident = rng.randrange(200)
+    for total in rng.sample([26, 39, 300, 2048, 4000, 4094, 4095, 4096, 4096], 5):
+        code = rng.choice([1, 4, 4])
+        ident += 1
+        pkt = exact_request(h, 0, code, max(total, 43 if code == 1 else 26), ident % 256)
+        if rng.random() < 0.2:
+            pkt += b"\x00" * rng.choice([1, 4])       # padded datagram
+        out = h.send("udpsend 0 %s" % pkt.hex())
+        if " fwd:" in out:
+            h.tag("forwarded")
+    return h.finish(kind="udp-size")
